@@ -184,6 +184,10 @@ fn check_grouping(what: &str, ops: &[DiffOp], n: usize, got: Result<Vec<Vec<Diff
     }
 }
 
+thread_local! {
+    static HUNK_ITER_FAILS: std::cell::RefCell<Vec<String>> = std::cell::RefCell::new(Vec::new());
+}
+
 pub fn families() -> Vec<Box<dyn Family>> {
     vec![
         family(
@@ -344,9 +348,45 @@ pub fn families() -> Vec<Box<dyn Family>> {
                     u.context_radius(NS[(idx % 7) as usize]);
                     let _ = u.iter_hunks().count();
                     u.context_radius(n);
-                    let hunks: Vec<Vec<DiffOp>> = u.iter_hunks().map(|h| h.ops().to_vec()).collect();
+                    // the other formatter options, set AFTER the radius in any order (some twice), do not regroup
+                    let mut srng = Rng::for_case(cfg.seed, "c12.textdiff.setters", idx);
+                    for _ in 0..srng.below(4) {
+                        match srng.below(3) {
+                            0 => {
+                                u.missing_newline_hint(srng.chance(1, 2));
+                            }
+                            1 => {
+                                u.header("a/file", "b/file");
+                            }
+                            _ => {
+                                let _ = u.iter_hunks().next();
+                            }
+                        }
+                    }
+                    let hunks: Vec<Vec<DiffOp>> = {
+                        let mut v = Vec::new();
+                        let mut it = u.iter_hunks();
+                        #[allow(clippy::while_let_on_iterator)]
+                        while let Some(h) = it.next() {
+                            v.push(h.ops().to_vec());
+                        }
+                        v
+                    };
+                    // every other way of consuming the hunk iterator delivers the same hunks
+                    let battery = if hunks.len() <= 40 && idx % 4 == 0 {
+                        iter_battery(&|| u.iter_hunks(), &|h| format!("{:?}", h.ops()), idx.wrapping_mul(2654435761))
+                    } else {
+                        Vec::new()
+                    };
+                    HUNK_ITER_FAILS.with(|f| *f.borrow_mut() = battery);
                     (ops, n, d.grouped_ops(n), hunks)
                 });
+                for f in HUNK_ITER_FAILS.with(|f| std::mem::take(&mut *f.borrow_mut())) {
+                    out.violation("group.hunk_iterator_protocol", format!("UnifiedDiff::iter_hunks(): {} | alg={} old={} new={}", f, alg_name(alg), fmt_seq(&a), fmt_seq(&b)));
+                }
+                if idx % 4 == 0 {
+                    out.count("hunk_iterator_batteries");
+                }
                 // two sub-slices of ONE token buffer with a common start (aliased inputs), and the
                 // one-call helper udiff::unified_diff against the builder
                 {
